@@ -7,6 +7,6 @@ import (
 )
 
 func main() {
-	run := lib.Start("C09", "generated stream scripts (1-4 streams quick / 1-8 thorough; HEADERS, DATA of sizes 0..70000 incl. > MAX_FRAME_SIZE, padding 1..255, END_STREAM, trailers, RST_STREAM, PUSH_PROMISE, PRIORITY) run between a raw-frame client and a raw-frame TLS server through h2.Config.Proxy; initial windows from {10, 50, 200, 5000, 65535}; receivers grant by policy greedy / stingy (1-100 octets at a time) / bursty / connection-first / stream-first; SETTINGS changes mid-flight (INITIAL_WINDOW_SIZE up and down to 1, MAX_FRAME_SIZE 16384..65536, HEADER_TABLE_SIZE); receiver ledgers flag DATA beyond the granted stream / connection credit and frames above MAX_FRAME_SIZE (increase counted from sending, decrease from its acknowledgement); sender conservation: WINDOW_UPDATE returned == flow-controlled octets sent incl. padding; race detector on; distinct = (streams, initial windows, policies, feature set) signatures")
+	run := lib.Start("C09", "generated stream scripts (1-4 streams quick / 1-8 thorough; HEADERS, DATA of sizes 0..70000 incl. > MAX_FRAME_SIZE, padding 1..255, END_STREAM, trailers, RST_STREAM, PUSH_PROMISE, PRIORITY) run between a raw-frame client and a raw-frame TLS server through h2.Config.Proxy - one script in twelve through a martian proxy that intercepts a CONNECT, negotiates h2 and hands the session to the relay, after a quiet period longer than that proxy's idle and handshake limits; initial windows from {10, 50, 200, 5000, 65535}; receivers grant by policy greedy / stingy (1-100 octets at a time) / bursty / connection-first / stream-first; SETTINGS changes mid-flight (INITIAL_WINDOW_SIZE up and down to 1, MAX_FRAME_SIZE 16384..65536, HEADER_TABLE_SIZE); receiver ledgers flag DATA beyond the granted stream / connection credit and frames above MAX_FRAME_SIZE (increase counted from sending, decrease from its acknowledgement); sender conservation: WINDOW_UPDATE returned == flow-controlled octets sent incl. padding; race detector on; distinct = (streams, initial windows, policies, feature set) signatures")
 	h2rig.Main(run, "C09")
 }
